@@ -180,3 +180,67 @@ def check_C07(ctx):
                   "checked by TLC on every file up to the bound; every file is spelled with records of all sections and decoded by all "
                   "nine decoder types: shared fields compared with Beatmap and each decoder compared with the fold of its handled "
                   "deliveries; non-trivial = distinct files with at least one delivery")
+
+
+# ----------------------------------------------------------------------------
+TIMING_INV = ["Refines", "Shape", "PendingClose", "NoNaNTiming"]
+
+
+def timing_cases(ctx, alpha, gens, maxlines, emit=True, workers=14):
+    """MC + emission for one alphabet; returns the cases file (first line = the alphabet)."""
+    name = "MC_TimingLines_%s_%s_%d" % (alpha, gens, maxlines)
+    cases = os.path.join(ctx.work, name + ".ndjson")
+    body = cases + ".body"
+    for p in (cases, body):
+        if os.path.exists(p):
+            os.remove(p)
+    cfg = dict(spec="Spec", invariants=TIMING_INV,
+               constants=dict(Alpha="<-" + alpha, Gens="<-" + gens, MaxLines=str(maxlines), Emit="TRUE" if emit else "FALSE"))
+    r = tlc(ctx, "TimingLines", name, cfg, workers=workers, timeout=3000, cases_file=body if emit else None)
+    if not emit:
+        return None
+    if r["alpha"] is None:
+        raise ToolError("TimingLines did not print its alphabet")
+    with open(cases, "w") as f:
+        f.write(json.dumps({"alpha": r["alpha"]}) + "\n")
+        with open(body) as b:
+            for ln in b:
+                f.write(ln)
+    os.remove(body)
+    return cases
+
+
+def check_C12(ctx):
+    thorough = ctx.tier == "thorough"
+    for m in ("ControlPointOps", "TimingLines", "Trace_TimingLines"):
+        sany(ctx, m)
+    files = []
+    if thorough:
+        for a in ("AlphaVel", "AlphaEff"):
+            files.append(timing_cases(ctx, a, "GensModes", 3))
+        files.append(timing_cases(ctx, "AlphaShape", "GensTwo", 3))
+        files.append(timing_cases(ctx, "AlphaSmp", "GensTwo", 2))
+        files.append(timing_cases(ctx, "AlphaAll", "GensAll", 2))
+    else:
+        files.append(timing_cases(ctx, "AlphaVel", "GensTwo", 3))
+        files.append(timing_cases(ctx, "AlphaAll", "GensTwo", 2))
+    for f in files:
+        summ = harness(ctx, ["timing", "replay", "--spellings", "2"], cases_file=f,
+                       name="timing-replay", timeout=3600)
+        report_mismatches(ctx, summ, "timing-point decoding differs from the TimingLines specification")
+    tcfg = dict(spec="TrSpec", invariants=["TrShape"], postcondition="Accepted",
+                constants=dict(Alpha="<-AlphaShape", Gens="<-GensTwo", MaxLines="0", Emit="FALSE"))
+    runs, lines = (40, 250) if thorough else (8, 150)
+    trace_step(ctx, "Trace_TimingLines", "Trace_TimingLines", tcfg,
+               ["timing", "record", "--runs", str(runs), "--lines", str(lines)],
+               "recorded timing-line decoding is not a behaviour of the TimingLines specification", "timing-trace")
+    ctx.assumptions += ["beat lengths whose velocity 100/-bl is a multiple of 1/1000 (exactness rule, DESIGN 2.1)",
+                        "times are whole milliseconds plus the single sub-EPSILON value 0+ = 1e-17; -0 is not generated",
+                        "the spelling table harness/src/timing.rs"]
+    return finish(ctx, "model_checking",
+                  "TLC enumerates every sequence of timing lines up to the bound over factored alphabets (velocity/ticks, flags/meter, "
+                  "sample fields, field presence + rejection classes) and their union, in the listed [General] settings, and checks that the "
+                  "pending-group machinery refines the declarative legacy rule; every enumerated sequence is spelled twice and decoded by "
+                  "the real TimingPoints decoder (and via the public state API, HitObjects and Beatmap) and the four lists compared with "
+                  "the prediction; non-trivial = distinct ([General], sequence) with at least one accepted line; long random unsorted "
+                  "sequences are validated line by line by Trace_TimingLines")
